@@ -88,6 +88,25 @@ func genC11(c *Ctx) {
 		c.emit("url.lowerproj", []string{s}, realLowerProj(s), true, class)
 	}
 
+
+	// --- long inputs: the scheme may start (or be interrupted) far into the string ---
+	for _, pad := range []int{63, 64, 65, 127, 128, 129, 200, 255, 256, 257, 1023, 1024, 4095, 4096, 4097} {
+		for _, fill := range []string{" ", "\t", "\n", "\x01", "\x00", "\r\n"} {
+			f := strings.Repeat(fill, pad)
+			san(f+"javascript:alert(1)", "long-pad")
+			san(f+"JaVaScRiPt:alert(1)", "long-pad")
+			san("j"+f+"avascript:alert(1)", "long-pad")
+			san("java"+f+"script:alert(1)", "long-pad")
+			san("javascript"+f+":alert(1)", "long-pad")
+			san(f+"https://example.com/", "long-pad")
+		}
+		a := strings.Repeat("a", pad)
+		san(a+":javascript:x", "long-pad")
+		san(a+"/javascript:x", "long-pad")
+		san("javascript:"+a, "long-pad")
+		san(a+"&colon;x", "long-pad")
+	}
+
 	// --- assumption about strings.ToLower: exhaustive over all runes, both tiers ---
 	asciiImage := 0
 	var sb strings.Builder
